@@ -1222,6 +1222,16 @@ class Interp:
             v = self.eval(x, env)
             if i == len(e.values) - 1:
                 return v
+            if getattr(self, 'pure_depth', 0) > 0:
+                tv = truthy(v)
+                if isinstance(tv, SBool):
+                    # inside the filter of a lazy comprehension (a predicate evaluated at Skolem items): no path split -- the
+                    # remaining operands are evaluated and combined; they must be effect free (an exception there is unsupported)
+                    try:
+                        rest = [truthy(self.eval(y, env)) for y in e.values[i + 1:]]
+                    except PyRaise as ex:
+                        raise Unsupported(f'exception in a short-circuit operand of a lazy filter: {ex.exc!r}')
+                    return (s_and if is_and else core.s_or)(tv, *rest)
             t = truth(v)
             if is_and and not t:
                 return v
@@ -1463,7 +1473,11 @@ class Interp:
             def conds(item):
                 cenv = Env(env.module, parent=env, cls=env.cls, self_obj=env.self_obj)
                 interp.assign(g.target, item, cenv)
-                return s_and(*[truthy(interp.eval(c, cenv)) for c in g.ifs])
+                interp.pure_depth = getattr(interp, 'pure_depth', 0) + 1
+                try:
+                    return s_and(*[truthy(interp.eval(c, cenv)) for c in g.ifs])
+                finally:
+                    interp.pure_depth -= 1
         return ('lazy', it._lazy_map(elt_fn, conds))
 
     def _snapshot_env(self, env):
